@@ -48,9 +48,10 @@ theorem formatKey_case_insensitive (G : Registry) (k k' : Bytes) (h : k.map toLo
 /-- lookup, membership, assignment and deletion give the same answer for a name in any letter case -/
 theorem ops_case_insensitive (G : Registry) (h : Coll) (k k' v : Bytes) (e : k.map toLower = k'.map toLower) :
     set G h k v = set G h k' v ∧ contains G h k = contains G h k' ∧ getbytes G h k = getbytes G h k'
-    ∧ delete G h k = delete G h k' ∧ pop G h k = pop G h k' ∧ append G h k v = append G h k' v := by
+    ∧ delete G h k = delete G h k' ∧ pop G h k = pop G h k' ∧ append G h k v = append G h k' v
+    ∧ setdefault G h k v = setdefault G h k' v := by
   have := formatKey_case_insensitive G k k' e
-  simp only [set, contains, getbytes, delete, pop, append, this, and_self]
+  simp only [set, contains, getbytes, delete, pop, append, setdefault, this, and_self]
 
 /-! ### the collection behaves like a map keyed by canonical name -/
 
@@ -77,6 +78,24 @@ theorem get_put_other (h : Coll) (k k' v : Bytes) (hne : k' ≠ k) : (h.put k v)
       · simp [Coll.put, Coll.get?, he', h2]
       · have h2' : (e.1 == k') = false := by simpa using h2
         simp [Coll.put, Coll.get?, he', h2', ih]
+
+/-- `setdefault` leaves a field that is there alone and otherwise stores the value where every spelling of the name finds it -/
+theorem setdefault_spec (G : Registry) (h h' : Coll) (k ck v r : Bytes) (hk : formatKey G k = .ok ck)
+    (hs : setdefault G h k v = .ok (r, h')) :
+    (∃ old, h.get? ck = some old ∧ r = old ∧ h' = h) ∨ (h.get? ck = none ∧ r = v ∧ h'.get? ck = some v) := by
+  unfold setdefault at hs
+  rw [hk] at hs
+  simp only [bind, Except.bind, pure, Except.pure] at hs
+  cases hg : h.get? ck with
+  | some old =>
+    rw [hg] at hs
+    simp only [Except.ok.injEq, Prod.mk.injEq] at hs
+    exact Or.inl ⟨old, rfl, hs.1.symm, hs.2.symm⟩
+  | none =>
+    rw [hg] at hs
+    simp only [Except.ok.injEq, Prod.mk.injEq] at hs
+    refine Or.inr ⟨rfl, hs.1.symm, ?_⟩
+    rw [← hs.2]; exact get_put_same h ck v
 
 theorem get_del_same (h : Coll) (k : Bytes) : (h.del k).get? k = none := by
   induction h with
